@@ -673,8 +673,27 @@ static int scenario(io_t *io, res_t *r, int prior_fail, int noslack) {
 }
 
 static int cur_loc = -1;
+/* thr: the encoding in effect is installed as the THREAD's locale (uselocale) over the opposite process-wide locale. libc's
+ * converters follow the thread locale; code that asks setlocale(LC_CTYPE, NULL) for the name sees the other one. */
+static int cur_thr;
+static int set_loc2(int l, int thr) {
+    static locale_t lc[2];
+    if (cur_loc == l && cur_thr == thr) return 1;
+    cur_loc = -1;
+    if (thr) {
+        if (!lc[l]) lc[l] = newlocale(LC_ALL_MASK, l ? "C.utf8" : "C", (locale_t)0);
+        if (!lc[l] || !setlocale(LC_ALL, l ? "C" : "C.utf8")) return 0;
+        uselocale(lc[l]);
+    } else {
+        uselocale(LC_GLOBAL_LOCALE);
+        if (!setlocale(LC_ALL, l ? "C.utf8" : "C")) return 0;
+    }
+    cur_loc = l; cur_thr = thr;
+    return 1;
+}
 static int set_loc(int l) {
-    if (cur_loc == l) return 1;
+    if (cur_loc == l && !cur_thr) return 1;
+    uselocale(LC_GLOBAL_LOCALE); cur_thr = 0;
     if (!setlocale(LC_ALL, l ? "C.utf8" : "C")) { cur_loc = -1; return 0; }
     cur_loc = l;
     return 1;
@@ -750,7 +769,11 @@ static void exec_inner(const void *k, res_t *r, const runcfg_t *cfg) {
     io_t *io = &IO;
     r->hash = cs_hash_bytes(CS_HASH_INIT, c, sizeof *c);
     if (c->op < 0 || c->op >= N_OPS || c->nsym < 0 || c->nsym > MAXSYM || c->mbn < 0 || c->mbn > MAXMB || c->dmax < 0 || c->len < 0) { res_label(r, "skipped"); return; }
-    if (!set_loc(c->loc)) { res_label(r, "locale-unavailable"); return; }
+    {
+        int thr = ((c->dmax * 7 + c->len * 3 + (long)c->op) % 3) == 0; /* a third of the cases, fixed by the case */
+        if (!set_loc2(c->loc, thr)) { res_label(r, "locale-unavailable"); return; }
+        if (thr) res_label(r, "locale-installed-with-uselocale");
+    }
     res_label(r, c->loc ? "locale:C.utf8" : "locale:C");
     res_label(r, c->op == FN_MBSTOWCS ? "row:mbstowcs_s" : c->op == FN_MBSRTOWCS ? "row:mbsrtowcs_s" : c->op == FN_WCSTOMBS ? "row:wcstombs_s" : c->op == FN_WCSRTOMBS ? "row:wcsrtombs_s"
                  : c->op == FN_WCRTOMB ? "row:wcrtomb_s" : c->op == FN_WCTOMB ? "row:wctomb_s" : c->op == OP_ROUNDTRIP ? "row:roundtrip" : "row:query");
